@@ -11,6 +11,7 @@ schedules that exhibited them are kept as `C06_regression_idle` / `C06_regressio
 Property theorems only; helper lemmas live in `Lemmas/`.
 -/
 import DeadpoolVerif.Lemmas.Closed
+import DeadpoolVerif.Lemmas.NoSlot
 import DeadpoolVerif.Lemmas.Frame
 
 namespace DeadpoolVerif
@@ -150,6 +151,49 @@ theorem C06_get_after_close_fails (s s' : State) (i : Nat) (t : Timeouts) (pc : 
     | (exact Or.inr rfl)
     | (exact absurd q (by simp))
 
+/-- **C06 (never yields an object, along every continuation).** Take any history after
+which the pool is closed and any operation `i` that at that point is not a get() owning a
+capacity token — a get() still waiting for a slot or not yet at the semaphore, any other
+kind of operation, or an operation that has not even started (every later get()).  Then in
+*every* continuation, however long and however scheduled, operation `i` is never handed an
+object: no `handout i o` event is ever added to the log. -/
+theorem C06_no_object_after_close (cfg : Cfg) (acts more : List Action) (i : Nat)
+    (hc : (run (init cfg) acts).sem.closed = true)
+    (hi : ∀ op, (run (init cfg) acts).ops[i]? = some op → op.noSlot = true) (o : Obj)
+    (h : Ev.handout i o ∈ (run (init cfg) (acts ++ more)).log) :
+    Ev.handout i o ∈ (run (init cfg) acts).log := by
+  rw [run_append] at h
+  have r := reach_run cfg acts
+  have k : NoSlotAt i (run (init cfg) acts) := ⟨hc, hi⟩
+  generalize run (init cfg) acts = s at *
+  induction more generalizing s with
+  | nil => exact h
+  | cons a more ih =>
+    rw [run_cons] at h
+    cases hst : step s a with
+    | none => rw [hst] at h; exact ih s hc hi h r k
+    | some s1 =>
+      rw [hst] at h
+      have hc1 := step_closed_mono r.link hst k.closed
+      obtain ⟨k1, hev⟩ := k.step hc1 hst
+      exact hev o (ih s1 hc1 k1.noSlot h (r.step hst) k1)
+
+/-- the premises of `C06_no_object_after_close` are met by a caller that was waiting for a
+slot when close() ran, and by one that arrives later; both end with `Closed` -/
+def C06_trace_waiter : List Action :=
+  [ .start (.get {}), .step 0 .run, .step 0 .run, .step 0 .run, .step 0 .ok, .step 0 .run,
+    .start (.get {}), .step 1 .run, .step 1 .run,
+    .start .close, .step 2 .run, .step 2 .run ]
+
+example :
+    let s := run (init { maxSize := 1 }) C06_trace_waiter
+    (run? (init { maxSize := 1 }) C06_trace_waiter).isSome = true ∧ s.sem.closed = true ∧
+    s.ops[1]? = some (.get {} .queued) ∧ (Op.get {} GPc.queued).noSlot = true ∧ s.ops[3]? = none ∧
+    Ev.result 1 .closed ∈ (run s [.step 1 .run, .step 1 .run]).log ∧
+    Ev.result 3 .closed ∈
+      (run s [.start (.get {}), .step 3 .run, .step 3 .run, .step 3 .run]).log := by
+  refine ⟨by decide, by decide, by decide, by decide, by decide, by decide, by decide⟩
+
 /-- **C06 (close is one step).** close() runs as one critical section: it closes the
 semaphore — which wakes every caller waiting for a slot: the queue is empty afterwards and
 each of them completes with `Closed` at its next poll (`C02_woken_completes`) —, sets
@@ -250,7 +294,7 @@ Now close() drains the queue regardless of permits. -/
 def C06_trace_idle : List Action :=
   [ .start (.get {}), .step 0 .run, .step 0 .run, .step 0 .run, .step 0 .ok, .step 0 .run,
     .start (.ret 0), .step 1 .run, .step 1 .run,
-    .start .close, .step 2 .run,
+    .start .close, .step 2 .run, .step 2 .run,
     .step 1 .run ]
 
 theorem C06_regression_idle :
@@ -260,10 +304,10 @@ theorem C06_regression_idle :
     Ev.destroy 2 0 ∈ s.log := by
   refine ⟨by decide, by decide, by decide, by decide, by decide, by decide⟩
 
-/-- a resize() that started before close() ran takes the mutex after it: it sees the closed
+/-- a resize() that was about to take the mutex when close() ran takes it afterwards: it sees the closed
 flag under the mutex and leaves `max_size` at 0 -/
 def C06_trace_max : List Action :=
-  [ .start (.resize 3), .start .close, .step 1 .run, .step 0 .run ]
+  [ .start (.resize 3), .step 0 .run, .start .close, .step 1 .run, .step 1 .run, .step 0 .run ]
 
 theorem C06_regression_max :
     let s := run (init { maxSize := 1 }) C06_trace_max
